@@ -34,12 +34,14 @@ package keeper
 
 //@ func Keeper.GetWrkChainOwner(ctx, wrkchainId) (owner)
 //@   props C07 C08 C09 C13
+//@   nopanic
 //@   pure
 //@   ensures wcHas(wrk_store, wrkchainId) && validBech32(wcGet(wrk_store, wrkchainId).Owner) ==> owner == addrOf(wcGet(wrk_store, wrkchainId).Owner)
 //@   ensures !(wcHas(wrk_store, wrkchainId) && validBech32(wcGet(wrk_store, wrkchainId).Owner)) ==> len(owner) == 0
 
 //@ func Keeper.IsAuthorisedToRecord(ctx, wrkchainId, recorder) (ok)
 //@   props C07 C08 C09 C13
+//@   nopanic
 //@   pure
 //@   requires 1 <= len(recorder)
 //@   ensures ok ==> wcHas(wrk_store, wrkchainId) && validBech32(wcGet(wrk_store, wrkchainId).Owner) && sameAddr(recorder, addrOf(wcGet(wrk_store, wrkchainId).Owner))
@@ -48,6 +50,7 @@ package keeper
 
 //@ func Keeper.GetHighestWrkChainID(ctx) (id, err)
 //@   props C09
+//@   nopanic
 //@   pure
 //@   requires wrkHighestSet(wrk_store) ==> len(wrk_store[kHighest]) == 8
 //@   ensures (err == nil) == wrkHighestSet(wrk_store)
@@ -55,6 +58,7 @@ package keeper
 
 //@ func Keeper.SetHighestWrkChainID(ctx, wrkChainID)
 //@   props C09
+//@   nopanic
 //@   modifies wrk_store
 //@   ensures wrkHighestIs(wrk_store, wrkChainID)
 //@   ensures wrk_store == old(wrk_store)[kHighest := wrk_store[kHighest]]
@@ -77,6 +81,7 @@ package keeper
 
 //@ func Keeper.SetWrkChainStorageLimit(ctx, wrkchainId, limit) (err)
 //@   props C08 C09
+//@   nopanic
 //@   modifies wrk_store
 //@   ensures err == nil && wrk_store == limPut(old(wrk_store), wrkchainId, limit)
 
@@ -118,6 +123,7 @@ package keeper
 
 //@ func Keeper.SetParams(ctx, params) (err)
 //@   props C16
+//@   nopanic
 //@   modifies wrk_store
 //@   ensures err == nil ==> wrk_store == wrkParamsPut(old(wrk_store), params)
 //@   ensures err == nil ==> validDenom(params.Denom) && params.FeeRegister >= 1 && params.FeeRecord >= 1 && params.FeePurchaseStorage >= 1
@@ -143,10 +149,12 @@ package keeper
 //@   ensures wrkParamsSet(wrk_store) ==> r == wrkParams(wrk_store).FeePurchaseStorage
 //@ func Keeper.GetParamDefaultStorageLimit(ctx) (r)
 //@   props C08 C09 C16
+//@   nopanic
 //@   pure
 //@   ensures wrkParamsSet(wrk_store) ==> r == wrkParams(wrk_store).DefaultStorageLimit
 //@ func Keeper.GetParamMaxStorageLimit(ctx) (r)
 //@   props C08 C16
+//@   nopanic
 //@   pure
 //@   ensures wrkParamsSet(wrk_store) ==> r == wrkParams(wrk_store).MaxStorageLimit
 
@@ -168,6 +176,7 @@ package keeper
 
 //@ func Keeper.QuickCheckHeightIsNew(ctx, wrkchainId, height) (ok)
 //@   props C07
+//@   nopanic
 //@   pure
 //@   ensures wcHas(wrk_store, wrkchainId) ==> ok == (height > wcGet(wrk_store, wrkchainId).Lastblock)
 
@@ -192,6 +201,7 @@ package keeper
 
 //@ func Keeper.RegisterNewWrkChain(ctx, moniker, wrkchainName, genesisHash, baseType, owner) (id, err)
 //@   props C08 C09
+//@   nopanic
 //@   requires wrkHighestSet(wrk_store) ==> len(wrk_store[kHighest]) == 8
 //@   requires wrkParamsSet(wrk_store)
 //@   requires 0 <= unixSecs(blockTime(ctx)) && unixSecs(blockTime(ctx)) < 2^63
@@ -208,12 +218,14 @@ package keeper
 
 //@ func Keeper.IncreaseInStateStorage(ctx, wrkchainId, amount) (err)
 //@   props C08
+//@   nopanic
 //@   requires limHas(wrk_store, wrkchainId)
 //@   modifies wrk_store
 //@   ensures err == nil && wrk_store == limPut(old(wrk_store), wrkchainId, wrapu64(limGet(old(wrk_store), wrkchainId) + amount))
 
 //@ func Keeper.GetMaxPurchasableSlots(ctx, wrkchainId) (n)
 //@   props C08 C06
+//@   nopanic
 //@   pure
 //@   requires wrkParamsSet(wrk_store)
 //@   ensures limHas(wrk_store, wrkchainId) ==> n == max(0, wrkParams(wrk_store).MaxStorageLimit - limGet(wrk_store, wrkchainId))
@@ -225,6 +237,7 @@ package keeper
 
 //@ func msgServer.RecordWrkChainBlock(goCtx, msg) (resp, err)
 //@   props C07 C08 C09 C13
+//@   nopanic
 //@   requires WRK_ALL(wrk_store)
 //@   requires 0 <= unixSecs(blockTime(goCtx)) && unixSecs(blockTime(goCtx)) < 2^63
 //@   requires wcHas(wrk_store, msg.WrkchainId) ==> wcGet(wrk_store, msg.WrkchainId).NumBlocks < 2^64 - 1
@@ -249,6 +262,7 @@ package keeper
 
 //@ func msgServer.RegisterWrkChain(goCtx, msg) (resp, err)
 //@   props C08 C09 C13
+//@   nopanic
 //@   requires WRK_ALL(wrk_store) && WRK_FRESH(wrk_store) && wrkParamsSet(wrk_store)
 //@   requires wrkParams(wrk_store).DefaultStorageLimit >= 1
 //@   requires 0 <= unixSecs(blockTime(goCtx)) && unixSecs(blockTime(goCtx)) < 2^63
@@ -268,6 +282,7 @@ package keeper
 
 //@ func msgServer.PurchaseWrkChainStateStorage(goCtx, msg) (resp, err)
 //@   props C08 C09 C13
+//@   nopanic
 //@   requires WRK_ALL(wrk_store) && wrkParamsSet(wrk_store)
 //@   let id := msg.WrkchainId
 //@   let s0 := old(wrk_store)
@@ -282,6 +297,7 @@ package keeper
 
 //@ func msgServer.UpdateParams(goCtx, req) (resp, err)
 //@   props C13 C16
+//@   nopanic
 //@   modifies wrk_store
 //@   ensures @authority_only err == nil ==> req.Authority == k.Keeper.authority
 //@   ensures @rejected_changes_nothing err != nil ==> wrk_store == old(wrk_store)
